@@ -431,32 +431,39 @@ def rule_fixpoints(ctx, rep, config="c-lib"):
     if not done_acc:
         raise AnalysisBroken("R10: the accessibility propagation loop was not found")
     # the two scans of set_loop_p skip their own position by index (a symbol may occur twice in a rule)
-    f = p.fn("set_loop_p")
     nskip = 0
-    for L in f.loops():
-        hdr = f.bmap[L["header"]]
-        own = [i for i in hdr.insts if i.op == "phi"]
-        brk = [bn for bn in L["body"] if bn != L["header"] and any(s_ not in L["body"] for s_ in f.bmap[bn].succs)]
-        loads_empty = any(i.op == "load" and (resolve_addr(f, i.ops[0]).last_field() or "").endswith("empty_p") for bn in L["body"] for i in f.bmap[bn].insts)
-        inner = not any(L2 is not L and L2["header"] in L["body"] for L2 in f.loops())
-        if not (own and brk and loads_empty and inner):
-            continue
-        nskip += 1
-        n += 1
-        key = "set_loop_p/skip-own-position#%d" % nskip
-        okk = False
-        for bn in L["body"]:
-            for c_ in f.bmap[bn].insts:
-                if c_.op == "icmp" and c_.d["pred"] in ("eq", "ne"):
-                    a_, b_ = f.inst(strip_int_casts(f, c_.ops[0])), f.inst(strip_int_casts(f, c_.ops[1]))
-                    if a_ is not None and b_ is not None and a_.op == "phi" and b_.op == "phi" and (a_ in own) != (b_ in own):
-                        okk = True
-        if okk:
-            rep.ok("R10", key, nontrivial=True)
-        else:
-            rep.violation("R10", key, "a scan of set_loop_p over the siblings of a right-hand side symbol does not skip its own position by comparing the two indices: "
-                          "comparing symbols skips every occurrence of the symbol (`A : A A' is then taken for a unit cycle)", where=hdr.term.where(), witness=[hdr.term.where()])
-    rep.floor("R10", "sibling scans of set_loop_p", nskip, 2)
+    helpers = [p.m.functions[c_.callee] for c_ in p.fn("set_loop_p").calls() if c_.callee in p.m.functions and not p.m.functions[c_.callee].decl
+               and p.m.functions[c_.callee].module == p.fn("set_loop_p").module and c_.callee not in ("nonterm_get", "symb_get", "term_get")]
+    for f in [p.fn("set_loop_p")] + helpers:
+      for L in f.loops():
+          hdr = f.bmap[L["header"]]
+          own = [i for i in hdr.insts if i.op == "phi"]
+          brk = [bn for bn in L["body"] if bn != L["header"] and any(s_ not in L["body"] for s_ in f.bmap[bn].succs)]
+          loads_empty = any(i.op == "load" and (resolve_addr(f, i.ops[0]).last_field() or "").endswith("empty_p") for bn in L["body"] for i in f.bmap[bn].insts)
+          inner = not any(L2 is not L and L2["header"] in L["body"] for L2 in f.loops())
+          if not (own and brk and loads_empty and inner):
+              continue
+          nskip += 1
+          n += 1
+          key = "set_loop_p/skip-own-position#%d" % nskip
+          okk = False
+          for bn in L["body"]:
+              for c_ in f.bmap[bn].insts:
+                  if c_.op == "icmp" and c_.d["pred"] in ("eq", "ne"):
+                      a_, b_ = f.inst(strip_int_casts(f, c_.ops[0])), f.inst(strip_int_casts(f, c_.ops[1]))
+                      if a_ is not None and b_ is not None and a_.op == "phi" and b_.op == "phi" and (a_ in own) != (b_ in own):
+                          okk = True
+                      # in a helper the position to skip is a parameter
+                      for (x_, y_) in ((c_.ops[0], c_.ops[1]), (c_.ops[1], c_.ops[0])):
+                          xi_ = f.inst(strip_int_casts(f, x_))
+                          if xi_ is not None and xi_ in own and strip_int_casts(f, y_).get("k") == "a":
+                              okk = True
+          if okk:
+              rep.ok("R10", key, nontrivial=True)
+          else:
+              rep.violation("R10", key, "a scan of set_loop_p over the siblings of a right-hand side symbol does not skip its own position by comparing the two indices: "
+                            "comparing symbols skips every occurrence of the symbol (`A : A A' is then taken for a unit cycle)", where=hdr.term.where(), witness=[hdr.term.where()])
+    rep.floor("R10", "sibling scans of set_loop_p", nskip, 1)
     # every update of a set inside a fixpoint loop reports into the change flag
     nupd = 0
     for fn in FUNCS:
@@ -539,7 +546,7 @@ def rule_fixpoints(ctx, rep, config="c-lib"):
                                               where=i.where(), witness=[t.where(), i.where()])
                 for s_ in f.bmap[bn].succs:
                     work.append((s_, d + 1))
-    rep.floor("R10", "scan-completed tests", ncomp, 3)
+    rep.floor("R10", "scan-completed tests", ncomp, 1)
     rep.floor("R10", "fixpoint obligations", n, 8)
 
 
